@@ -1006,7 +1006,7 @@ def other_lists_unchanged(self, old_lists, but=None):
                  for k in SECTION_NAMES if k != but])
 
 
-M.contract(P_DP + ':_Impl.set_current_section',
+M.contract(P_DP + ':_Impl.set_current_section', inline=True,
            params=dict(self=IMPL, section_name=SECTION_NAME),
            old=lambda self: (lists_snapshot(self), self._document_source, self._current_line),
            modifies=dict(self=dict(_name_of_current_section=Any_, _parser_for_current_section=Any_,
